@@ -105,6 +105,7 @@ type VC struct {
 	used    map[string]bool // contracts used (callee names)
 	trusted map[string]bool // extern models used
 	specDepth int
+	noOblige  int // >0: obligations are not recorded (peeled first evaluation of a loop header)
 	termSorts map[string]string
 	lastLatch map[string][]string
 	noAssumeObs bool
@@ -286,7 +287,7 @@ func (w *World) strLitAddr(s string) int64 {
 
 func (vc *VC) oblige(fr *Frame, ins ssa.Instruction, kind string, sub int, goal string, desc string) {
 	reach := fr.reach
-	if goal == tTrue || reach == tFalse || vc.specDepth > 0 {
+	if goal == tTrue || reach == tFalse || vc.specDepth > 0 || vc.noOblige > 0 {
 		return
 	}
 	w := vc.w
@@ -315,7 +316,7 @@ func (vc *VC) oblige(fr *Frame, ins ssa.Instruction, kind string, sub int, goal 
 // obligeNamed adds an obligation with an explicit name (contracts).
 func (vc *VC) obligeNamed(fr *Frame, name, kind, goal string, tags []string, desc string) {
 	reach := fr.reach
-	if reach == tFalse || vc.specDepth > 0 {
+	if reach == tFalse || vc.specDepth > 0 || vc.noOblige > 0 {
 		return
 	}
 	vc.obSeen[name]++
